@@ -488,9 +488,20 @@ pub fn random(class: &str, n: u64, seed: u64, out: &str) {
         match class {
             "burst" => {
                 let nc = 2 + rng.below(5);
+                // every other scenario also has suspended property getters / setters in between (they hold the
+                // interface lock in a task of their own when the next method call is dispatched)
+                let props = (i / 2) % 2 == 1;
                 for _ in 0..nc {
                     let ny = rng.below(4);
                     calls.push(CallCfg { kind: if rng.chance(1, 2) { "meth" } else { "methmut" }.into(), body: vec!['y'; ny as usize] });
+                    if props && rng.chance(1, 3) {
+                        calls.push(CallCfg { kind: if rng.chance(1, 2) { "get" } else { "set" }.into(), body: vec!['y'; 1 + rng.below(2) as usize] });
+                    }
+                }
+                if props {
+                    let at = rng.below(calls.len() as u64) as usize;
+                    calls.insert(at, CallCfg { kind: "set".into(), body: vec!['y'] });
+                    calls.truncate(6); // the interfaces have properties P1..P6
                 }
             }
             "mutate" => {
